@@ -61,6 +61,15 @@ let fe_of = function
   | _ -> failwith "fe"
 let fe_sexp s = L [L (List.map sexp_of_expr s.cs); L (List.map sexp_of_expr s.seen)]
 
+let ann_of = function
+  | L [i; A k] -> (z_a i, (match k with "E" -> KElim | "P" -> KPinned | "R" -> KReloc | _ -> failwith "akind"))
+  | _ -> failwith "ann"
+let ann_sexp (i, k) = L [a_z i; A (match k with KElim -> "E" | KPinned -> "P" | KReloc -> "R")]
+let anode_of = function
+  | L [L o; L ku; L r] -> { own = List.map ann_of o; kids_unel = List.map ann_of ku; reloc = List.map ann_of r }
+  | _ -> failwith "anode"
+let anode_sexp n = L [L (List.map ann_sexp n.own); L (List.map ann_sexp (unel n)); L (List.map ann_sexp n.reloc)]
+
 let fuel = nat_of_int 60
 
 (* the generated concrete functions, by python name *)
@@ -180,6 +189,11 @@ let handle = function
     a_z (str_to_int (nat_of_int (int_of_string k)) ds)
   | L [A "int_to_str"; A k; v] ->
     A (String.concat "" (List.map string_of_cz (int_to_str (nat_of_int (int_of_string k)) (z_a v))))
+  | L [A "annot_handle"; simp; L args] ->
+    (match handle_annotations (anode_of simp) (List.map anode_of args) with
+     | Some r -> L [A "some"; anode_sexp r]
+     | None -> L [A "none"])
+  | L [A "annot_build"; L given; L kids] -> anode_sexp (build (List.map ann_of given) (List.map anode_of kids))
   | L [A "fe_split_fe"; st] -> L (List.map fe_sexp (split_fe (fe_of st)))
   | L [A "meta"; e] ->
     let x = expr_of e in
